@@ -25,7 +25,8 @@ RULE = ('Each case = a generated program of 1-4 cacheable operations (subbuild /
         'User code copies what it observes before mutating, so a correct library makes the mutated run indistinguishable '
         'from its twin without mutations: return values and invocation logs of builds 1-3 and the decompressed cache JSON '
         'after each build are compared. Non-trivial = a mutation that actually changed a non-empty container on an edge '
-        'belonging to a committed cache record; distinct = distinct encoded case.')
+        'belonging to a committed cache record; distinct = distinct encoded case. Half of the querying functions repeat their '
+        'list_dir/walk after the first result was edited and return both answers.')
 ASSUMPTIONS = ['user code takes its observations (deep copies) before it mutates, so observations cannot differ for a by-value API']
 
 EDGES = ['args_in_callee', 'args_caller_after', 'ret_to_caller', 'ret_obj_of_callee', 'list_dir_result', 'walk_result', 'nested_ret']
@@ -143,6 +144,10 @@ def run_program(case, mutations_on):
                                 tgt = w if mop in ('pop', 'clear', 'delitem') and case.get('walk_outer') else w[0]
                                 if mutate(tgt, mop):
                                     applied[0] += 1
+                    if op.get('requery') and op.get('query'):
+                        # the same query again on the same builder, after the first result was (possibly) edited in place
+                        again = b.list_dir(os.path.join(R, 'in')) if op['query'] == 'list_dir' else b.walk(os.path.join(R, 'in'))
+                        extra = [extra, sorted(again) if op['query'] == 'list_dir' else norm_walk(again)]
                     nested = None
                     if op.get('child') is not None:
                         ch = op['child']
@@ -267,6 +272,8 @@ def cases(draw):
               'kwargs': draw(st.dictionaries(st.sampled_from(['kw', 'opt']), _w([(2, container), (1, leaf)]), max_size=2)),
               'ret': draw(_w([(2, container), (1, leaf), (1, flat)])),
               'query': draw(st.sampled_from([None, None, 'list_dir', 'walk']))}
+        if op['query'] and draw(st.booleans()):
+            op['requery'] = True
         if draw(st.sampled_from(range(3))) == 0:
             op['raw_ret'] = True
             op['ret'] = draw(_w([(2, flat), (1, container)]))
